@@ -13,7 +13,7 @@ def validate(run, sc, tier):
     cases = getattr(run, "cases_for_traces", [])
     if c06._L is None:      # `python -m harness.c06` runs the module as __main__: this is a second instance
         c06._init()
-    prog = collect_trace.record_programs(cases, lambda c: qc_common.build(c["p"], c06._L, False),
+    prog = collect_trace.record_programs(cases, lambda c: qc_common.build(c["p"], c06._L, False, extra_ops={"gapp": lambda args, ev: c06._GFUN(args[0])}),
                                          collect_expression_and_dimension, 4000 if tier == "quick" else 40000, run.seed)
     for k, v in prog["dropped"].items():
         run.outside(f"recorder: {k}", v)
